@@ -5,6 +5,7 @@ package net
 
 import (
 	"context"
+	"time"
 
 	"github.com/fxamacker/cbor/v2"
 	"github.com/ipfs/boxo/blockservice"
@@ -93,4 +94,13 @@ func (p *Peer) VerifClearDialBackoff(id peer.ID) {
 		conn.Connect()
 	}
 	p.server.connMu.Unlock()
+}
+
+// VerifSetSyncLinkTimeout sets the time the DAG sync waits for one linked block and returns the previous value. With a
+// tiny value a receiver accepts a pushed head and stores it, but every fetch of a block it links to times out: a sync
+// cut short by a slow or dropped connection.
+func VerifSetSyncLinkTimeout(d time.Duration) time.Duration {
+	old := syncBlockLinkTimeout
+	syncBlockLinkTimeout = d
+	return old
 }
